@@ -49,10 +49,15 @@ COMMANDS = {
                    lit(body('m2')) + b' (\\Seen) ' + lit(body('m3')),
     'MULTIAPPEND-Other': b'APPEND Other ' + lit(body('m1')) + b' ' +
                          lit(body('m2')),
+    # a large second message: size-dependent paths (executor hand-off,
+    # chunked reads) only exist above some threshold
+    'MULTIAPPEND-big': b'APPEND INBOX ' + lit(body('m1')) + b' ' +
+                       lit(body('m2') + b'filler line\r\n' * 40000),
     'EXPUNGE3': b'EXPUNGE',
     'APPEND1': b'APPEND INBOX ' + lit(body('m1')),
 }
 NEW_TOKENS = {'MULTIAPPEND': ['m1', 'm2', 'm3'],
+              'MULTIAPPEND-big': ['m1', 'm2'],
               'MULTIAPPEND-Other': ['m1', 'm2'], 'APPEND1': ['m1']}
 
 
